@@ -134,6 +134,7 @@ PROPS["C15"] = {
     "units": [
         rapid("replay-under-writes", "rtpconn", "TestVerif_C15_ReplayUnderWrites", 60, 500, shards=8, quick_shards=4),
         rapid("chat-machine", "rtpconn", "TestVerif_C15_ChatMachine", 500, 4000, quick_shards=4),
+        rapid("history-across-an-empty-room", "rtpconn", "TestVerif_C15_HistoryAcrossAnEmptyRoom", 48, 320, quick_shards=16),
         rapid("history-model", "group", "TestVerif_C15_HistoryModel", 2000, 15000),
     ],
     "technique": "model-based stateful property testing (rapid): delivery model and history model",
